@@ -180,6 +180,22 @@ def run(ctx):
                 break
             env.bind(ir)
             (mod,) = ir.modules
+            # structural edits that do not touch any table: detaching / re-attaching the module (also through another IR) must not
+            # count as reading its tables
+            q = rng.random()
+            if q < 0.12:
+                ir.modules.remove(mod)
+                ir.modules.append(mod)
+                ctx.count("module_detached_and_reattached")
+            elif q < 0.24:
+                other_ir = g.IR()
+                mod.ir = other_ir
+                mod.ir = ir
+                ctx.count("module_moved_through_another_ir")
+            elif q < 0.3:
+                mod.ir = None
+                mod.ir = ir
+                ctx.count("module_detached_and_reattached")
             hist = {}
             for k in tables:
                 st = state[k]
